@@ -49,13 +49,43 @@ theorem pv2 : PVOK [((d.name, d.hash), d)] o2 := by
   decide
 
 theorem hist : HistOK h [] [o1, o2] := by
-  refine ⟨⟨d, [.int 5], rfl⟩, ?_, ?_, ?_⟩
+  refine ⟨Or.inl ⟨d, [.int 5], rfl⟩, ?_, ?_, ?_⟩
   · rw [reg1]; intro d' hd'; simp at hd'; subst hd'; exact ⟨dOK, rfl⟩
   · rw [reg1]; exact pv1
   · rw [reg1]
-    refine ⟨⟨d, _, rfl⟩, ?_, ?_, trivial⟩
+    refine ⟨Or.inl ⟨d, _, rfl⟩, ?_, ?_, trivial⟩
     · rw [reg2]; intro d' hd'; simp at hd'
     · rw [reg2]; exact pv2
 
 example : (writeAll WState.init [o1, o2]).isSome = true := by rfl
+end FlowRecord.StreamExample
+
+/-! a grouped record (one member of type `d`) written first on a fresh stream -/
+namespace FlowRecord.StreamExample
+def g1 : PV := .grouped [103] [.record d [.int 5]]
+
+theorem sg : strOK [103] := ⟨[103], by decide, by decide, by decide⟩
+
+theorem regG : (newDescs [] (descsOf g1)) = ([((d.name, d.hash), d)], [d]) := by decide
+
+theorem pvG : PVOK [((d.name, d.hash), d)] g1 := by
+  simp only [g1, PVOK, PVOKMembers, PVOKList]
+  refine ⟨sg, by decide, ⟨s1, by decide, by decide, by decide, ⟨Or.inl (by decide), trivial⟩, trivial⟩, ?_⟩
+  intro n members hn hm
+  have e1 : mstr [103] = some (.str [103]) := by rfl
+  have e2 : toMMembers [PV.record d [.int 5]] = some [.arr [.arr [.str [116, 47, 120], .int 7], .arr [.int 5]]] := by rfl
+  rw [e1] at hn; rw [e2] at hm
+  cases hn; cases hm
+  decide
+
+theorem histG : HistOK h [] [g1, o2] := by
+  refine ⟨Or.inr ⟨_, _, rfl⟩, ?_, ?_, ?_⟩
+  · rw [regG]; intro d' hd'; simp at hd'; subst hd'; exact ⟨dOK, rfl⟩
+  · rw [regG]; exact pvG
+  · rw [regG]
+    refine ⟨Or.inl ⟨d, _, rfl⟩, ?_, ?_, trivial⟩
+    · rw [reg2]; intro d' hd'; simp at hd'
+    · rw [reg2]; exact pv2
+
+example : (writeAll WState.init [g1, o2]).isSome = true := by rfl
 end FlowRecord.StreamExample
